@@ -3,7 +3,7 @@
 From Coq Require Import ZArith List String Bool Ascii.
 From Verif Require Import Value PyEq BsonOrder Path Filter Update Project Coll HistCheck HistProps
   HistGuards HistPropCheck.
-From Verif.Proofs Require Import C13Proofs C13Id.
+From Verif.Proofs Require Import C13Proofs C13Id C13Match.
 From Verif.Proofs Require C02History.
 Import ListNotations.
 Open Scope Z_scope.
@@ -74,4 +74,48 @@ Proof.
   split; [exact Hr|]. split; [exact Hu|]. split; [vm_compute; reflexivity|].
   split; [apply c13_history_id; [repeat constructor|exact Hr|exact Hu]|].
   split; vm_compute; reflexivity.
+Qed.
+
+(* the premises of C13_history_flat_partial are satisfiable on a non-trivial history: every
+   equality-only upsert filter has dot-free keys (literals, {$eq: v}, an array literal); the
+   theorem then gives the full predicate c13_ok *)
+Definition c13_ex_ops3 : list op :=
+  [OInsertOne (VDoc [("_id", VInt 1); ("a", VInt 1)]);
+   OCreateIndex [("a", VInt 1)] true false None None None;
+   (* nothing matches: insert, _id from the filter; the new document matches the filter *)
+   OUpdate (VDoc [("_id", VInt 2); ("a", VInt 2)]) (VDoc [("$set", VDoc [("b", VInt 1)])]) false true;
+   (* {$eq: v}, a null literal, an array literal; the update writes other (dotted) paths *)
+   OUpdate (VDoc [("a", VInt 3); ("k", VDoc [("$eq", VStr "s")]); ("n", VNull);
+                  ("l", VArr [VInt 1; VDoc [("z", VInt 2)]])])
+           (VDoc [("$inc", VDoc [("b", VInt 1)]); ("$push", VDoc [("p.q", VInt 1)]);
+                  ("$min", VDoc [("w", VInt 3)])]) true true;
+   (* a non-equality filter with a dotted path: outside the last clause *)
+   OUpdate (VDoc [("a", VInt 4); ("m.x", VDoc [("$gte", VInt 2)])])
+           (VDoc [("$setOnInsert", VDoc [("c", VInt 1)])]) false true;
+   (* something matches: modify *)
+   OUpdate (VDoc [("a", VDoc [("$gte", VInt 2)])]) (VDoc [("$inc", VDoc [("b", VInt 1)])]) true true;
+   (* replacement upserts *)
+   OReplace (VDoc [("_id", VInt 9)]) (VDoc [("a", VInt 9)]) true;
+   OReplace (VDoc [("a.b", VInt 10)]) (VDoc [("a", VInt 10); ("z", VNull)]) true;
+   (* an upsert rejected by the unique index *)
+   OUpdate (VDoc [("c", VInt 1)]) (VDoc [("$set", VDoc [("a", VInt 1)])]) false true;
+   OFind (VDoc []) None [] 0 0].
+
+Example c13_ex_history3 :
+  Forall C02History.op_wf c13_ex_ops3 /\
+  c13_reasons c13_ex_ops3 (model_obs false empty_coll c13_ex_ops3) = 0 /\
+  c13_undecided c13_ex_ops3 = false /\
+  c13_flat c13_ex_ops3 = true /\
+  modelled false empty_coll c13_ex_ops3 = true /\
+  c13_ok c13_ex_ops3 (model_obs false empty_coll c13_ex_ops3) = true /\
+  map (fun ob => List.length (snd (fst ob))) (model_obs false empty_coll c13_ex_ops3)
+  = [1; 1; 2; 3; 4; 4; 5; 6; 6; 6]%nat.
+Proof.
+  split; [repeat constructor|].
+  assert (Hr : c13_reasons c13_ex_ops3 (model_obs false empty_coll c13_ex_ops3) = 0) by (vm_compute; reflexivity).
+  assert (Hu : c13_undecided c13_ex_ops3 = false) by (vm_compute; reflexivity).
+  assert (Hf : c13_flat c13_ex_ops3 = true) by (vm_compute; reflexivity).
+  split; [exact Hr|]. split; [exact Hu|]. split; [exact Hf|]. split; [vm_compute; reflexivity|].
+  split; [apply c13_history_flat; [repeat constructor|exact Hr|exact Hu|exact Hf]|].
+  vm_compute; reflexivity.
 Qed.
